@@ -36,6 +36,10 @@ func init() {
 	ruleText["R07.5"] = "same analysis as C13/R13.6 (Use copies the Exports map entries into per-interpreter maps)"
 	ruleText["R07.7"] = "on the flow graph of every argument copier (func(reflect.Value) reflect.Value using reflect.New and Set: fixArg) pruned under <param>.CanSet() == true, no `return <param>` is reachable: the arguments of go and defer statements calling host functions are fixed when the statement executes"
 	ruleText["R07.8"] = "no value returned by (*Interpreter).Execute originates (SSA) in reflect.New(T).Elem() or an argument copier: the host gets the live variable, as from Globals and Symbols"
+	ruleText["R07.10"] = "every assignment <node>.rval = v in cfg where v is looked up in Interpreter.binPkg, or is the rval of a binSym symbol, is unreachable (path conditions evaluated three-valued with the facts of the enclosing cases) under v.CanAddr() == true: a host variable is never a compile-time constant"
+	ruleText["R07.11"] = "go.mod declares a language version below go1.22: no function literal that outlives its loop iteration (stored in a field or element, appended, returned, placed in a composite literal, given to reflect.MakeFunc, started by go/defer) refers to a variable of the enclosing for/range clause"
+	ruleText["R07.12"] = "in the generator of calls, inside each loop over the results of a nested call that appends operand generators, the parameter type of the operand position is not consulted: a variable redefined inside that loop (per result) is"
+	ruleText["R07.13"] = "same analysis as C06/R06.11 (a deferred host call written f(s...) hands the host the elements of s, not s as one argument)"
 	ruleText["R07.6"] = "same analysis as C05/R05.5 (getWrapper decides on (*itype).methods)"
 }
 
@@ -45,6 +49,7 @@ func runC07(c *Config, r *Report) {
 		r.Errorf("%v", err)
 		return
 	}
+	loopCaptureRule(c, ic, r, "R07.11", nil)
 	c07R1(ic, r)
 	c07R2(ic, r)
 	freshFrameSlots(ic, r, "R07.3")
@@ -61,6 +66,9 @@ func runC07(c *Config, r *Report) {
 	}
 	copiersAlwaysCopy(ic, r, "R07.7")
 	c07R8(ic, r)
+	c07R10(ic, r)
+	c07R12(ic, r)
+	c06R11(ic, r, "R07.13")
 }
 
 // c07R1: sibling agreement of the argument preparation in callBin.
@@ -369,4 +377,313 @@ func ssaCalleeKey(c *ssa.Call) string {
 		}
 	}
 	return ""
+}
+
+// c07R10: a variable supplied by the host through Use is read when the script evaluates the
+// expression, never when it is compiled. The compiler and the operator generators treat every
+// node with a valid rval as a compile-time constant (folded, converted once, read outside the
+// run-time closure), so a node that denotes a symbol of a binary package may receive the
+// symbol's value in rval only when that value is not addressable (a function, a constant, a
+// type): every assignment `<node>.rval = v` in cfg where v comes from the binary-package
+// table (a lookup in Interpreter.binPkg, or the rval of a binSym symbol) is unreachable under
+// v.CanAddr() == true.
+func c07R10(ic *IC, r *Report) {
+	fi := ic.fn(r, "Interpreter.cfg")
+	if fi == nil {
+		return
+	}
+	info := ic.Info
+	rvalFld := ic.field("node", "rval")
+	symRval := ic.field("symbol", "rval")
+	binPkg := ic.field("Interpreter", "binPkg")
+	if rvalFld == nil || symRval == nil || binPkg == nil {
+		r.Errorf("anchor not resolved: node.rval / symbol.rval / Interpreter.binPkg")
+		return
+	}
+	// locals bound to a lookup in the binary-package table
+	fromTable := map[types.Object]bool{}
+	ast.Inspect(fi.Decl.Body, func(n ast.Node) bool {
+		as, ok := n.(*ast.AssignStmt)
+		if !ok || len(as.Rhs) != 1 || len(as.Lhs) == 0 {
+			return true
+		}
+		e := unparen(as.Rhs[0])
+		for {
+			ix, ok := e.(*ast.IndexExpr)
+			if !ok {
+				break
+			}
+			if selField(info, ix.X) == binPkg {
+				if id, ok := as.Lhs[0].(*ast.Ident); ok && info.ObjectOf(id) != nil {
+					if types.TypeString(info.TypeOf(id), nil) == "reflect.Value" {
+						fromTable[info.ObjectOf(id)] = true
+					}
+				}
+				break
+			}
+			e = unparen(ix.X)
+		}
+		return true
+	})
+	var split func(e ast.Expr, op token.Token) []ast.Expr
+	split = func(e ast.Expr, op token.Token) []ast.Expr {
+		if be, ok := unparen(e).(*ast.BinaryExpr); ok && be.Op == op {
+			return append(split(be.X, op), split(be.Y, op)...)
+		}
+		return []ast.Expr{unparen(e)}
+	}
+	n := 0
+	ast.Inspect(fi.Decl.Body, func(m ast.Node) bool {
+		as, ok := m.(*ast.AssignStmt)
+		if !ok || len(as.Lhs) != len(as.Rhs) {
+			return true
+		}
+		for i, l := range as.Lhs {
+			if selField(info, l) != rvalFld {
+				continue
+			}
+			rhs := unparen(as.Rhs[i])
+			src := ""
+			if id, ok := rhs.(*ast.Ident); ok && fromTable[info.ObjectOf(id)] {
+				src = types.ExprString(rhs)
+			}
+			guards := pathGuards(fi.Decl.Body, as)
+			if se, ok := rhs.(*ast.SelectorExpr); ok && selField(info, se) == symRval {
+				// the rval of a symbol: a binary symbol when the path tests sym.kind == binSym
+				for _, g := range guards {
+					if g.want && strings.Contains(types.ExprString(g.cond), "binSym") {
+						src = types.ExprString(rhs)
+					}
+				}
+			}
+			if src == "" {
+				continue
+			}
+			n++
+			facts := map[string]int{src + ".CanAddr()": triTrue}
+			for _, g := range guards {
+				if g.want {
+					for _, c := range split(g.cond, token.LAND) {
+						if _, known := facts[types.ExprString(c)]; !known {
+							facts[types.ExprString(c)] = triTrue
+						}
+					}
+				} else {
+					for _, c := range split(g.cond, token.LOR) {
+						if _, known := facts[types.ExprString(c)]; !known {
+							facts[types.ExprString(c)] = triFalse
+						}
+					}
+				}
+			}
+			atom := func(e ast.Expr) int {
+				if v, ok := facts[types.ExprString(e)]; ok {
+					return v
+				}
+				return triUnknown
+			}
+			unreachable := false
+			for _, g := range guards {
+				v := evalCond(g.cond, atom)
+				if g.want && v == triFalse || !g.want && v == triTrue {
+					unreachable = true
+				}
+			}
+			r.Check(unreachable, "R07.10", fmt.Sprintf("cfg/binary-symbol-as-constant#%d/not-for-variables", n), ic.pos(as.Pos()), "not reached for an addressable value (a host variable)",
+				"cfg stores the value of a binary-package symbol ("+src+") in the node's rval also when it is addressable, i.e. a variable supplied by the host: nodes with a valid rval are compile-time constants for the compiler and the operator generators (folded, converted once, read when the closure is generated), so the script keeps seeing the value the variable had when the code was compiled (func F() int { return host.A + 1 } after the host sets A)")
+		}
+		return true
+	})
+	if n == 0 {
+		r.Errorf("R07.10: no assignment of a binary-package symbol value to node.rval found in cfg")
+	}
+}
+
+// c07R12: script -> script calls with a nested call as sole argument, f(g()): each value
+// returned by g feeds its own parameter of f, so the decision "wrap the value for an
+// interface-typed parameter" is taken on the type of the parameter at the *result's* position.
+// In the generator of calls, inside every loop over the results of a nested call (a loop nested
+// in the loop over the operands that appends to the operand generators), the parameter type
+// consulted is a variable (re)defined inside that inner loop: the type computed once for the
+// operand's own position is only the default it starts from.
+func c07R12(ic *IC, r *Report) {
+	fi := ic.fn(r, "call")
+	if fi == nil {
+		return
+	}
+	info := ic.Info
+	argFld := ic.field("itype", "arg")
+	n := 0
+	ast.Inspect(fi.Decl.Body, func(m ast.Node) bool {
+		outer, ok := m.(*ast.RangeStmt)
+		if !ok {
+			return true
+		}
+		// the parameter type of the operand: a *itype local of the loop body assigned from X.arg[...]
+		var ptype types.Object
+		for _, st := range outer.Body.List {
+			ast.Inspect(st, func(k ast.Node) bool {
+				if loopBody(k) != nil {
+					return false
+				}
+				as, ok := k.(*ast.AssignStmt)
+				if !ok || len(as.Lhs) != 1 || len(as.Rhs) != 1 {
+					return true
+				}
+				id, ok := as.Lhs[0].(*ast.Ident)
+				if !ok || !isNamedPtr(info.TypeOf(id), "itype") {
+					return true
+				}
+				uses := false
+				ast.Inspect(as.Rhs[0], func(q ast.Node) bool {
+					if se, ok := q.(*ast.SelectorExpr); ok && selField(info, se) == argFld && argFld != nil {
+						uses = true
+					}
+					return true
+				})
+				if uses && ptype == nil {
+					ptype = info.ObjectOf(id)
+				}
+				return true
+			})
+		}
+		if ptype == nil {
+			return true
+		}
+		ast.Inspect(outer.Body, func(k ast.Node) bool {
+			body := loopBody(k)
+			if body == nil || k == ast.Node(outer) {
+				return true
+			}
+			appends := false
+			ast.Inspect(body, func(q ast.Node) bool {
+				if c, ok := q.(*ast.CallExpr); ok && isBuiltinCall(info, c, "append") {
+					appends = true
+				}
+				return true
+			})
+			if !appends {
+				return true
+			}
+			n++
+			var bad []string
+			ast.Inspect(body, func(q ast.Node) bool {
+				// arg := arg (the default the inner variable starts from) is accepted
+				if as, ok := q.(*ast.AssignStmt); ok && as.Tok == token.DEFINE && len(as.Rhs) == 1 {
+					if rid, ok := unparen(as.Rhs[0]).(*ast.Ident); ok && info.Uses[rid] == ptype {
+						return false
+					}
+				}
+				if id, ok := q.(*ast.Ident); ok && info.Uses[id] == ptype {
+					bad = append(bad, ic.pos(id.Pos()))
+				}
+				return true
+			})
+			r.Check(len(bad) == 0, "R07.12", fmt.Sprintf("call/nested-call-results#%d/parameter-of-each-result", n), ic.pos(k.Pos()), "the parameter type is determined per result",
+				"in the loop over the results of a nested call, the generator of calls consults "+ptype.Name()+" (at "+strings.Join(bad, ", ")+"), the type of the parameter at the operand's own position, for every result: f(g()) with g returning (T, error) and f taking (I, error), I an interface declared in the script, wraps the error like the first parameter and the call panics (reflect.Set: value of type interp.valueInterface is not assignable to type error)")
+			return false
+		})
+		return false
+	})
+	if n == 0 {
+		r.Errorf("R07.12: no loop over the results of a nested call found in the generator of calls")
+	}
+}
+
+// c07R14: whether the last argument of a call to a variadic script function is the variadic
+// parameter itself is decided by the ellipsis of the call (f(s...), recorded as aCallSlice),
+// as the bridge to host functions does with Call/CallSlice - never by comparing run-time
+// types: f(a) with a of type []interface{} and f taking ...interface{} passes ONE element.
+// In the generator of calls, every store of a whole operand into the variadic vector of the
+// new frame (vararg.Set(v) with v not built by reflect.Append) lies under a condition on the
+// ellipsis flag.
+func c07R14(ic *IC, r *Report, rule string) {
+	fi := ic.fn(r, "call")
+	if fi == nil {
+		return
+	}
+	info := ic.Info
+	// the ellipsis flag: locals defined from a comparison with the constant aCallSlice
+	flag := map[types.Object]bool{}
+	ast.Inspect(fi.Decl.Body, func(m ast.Node) bool {
+		as, ok := m.(*ast.AssignStmt)
+		if !ok || len(as.Lhs) != 1 || len(as.Rhs) != 1 {
+			return true
+		}
+		mentions := false
+		ast.Inspect(as.Rhs[0], func(k ast.Node) bool {
+			if id, ok := k.(*ast.Ident); ok {
+				if c, ok := info.Uses[id].(*types.Const); ok && c.Name() == "aCallSlice" {
+					mentions = true
+				}
+			}
+			return true
+		})
+		if id, ok := as.Lhs[0].(*ast.Ident); ok && mentions {
+			flag[info.ObjectOf(id)] = true
+		}
+		return true
+	})
+	mentionsFlag := func(e ast.Node) bool {
+		found := false
+		ast.Inspect(e, func(k ast.Node) bool {
+			if id, ok := k.(*ast.Ident); ok {
+				if flag[info.ObjectOf(id)] {
+					found = true
+				}
+				if c, ok := info.Uses[id].(*types.Const); ok && c.Name() == "aCallSlice" {
+					found = true
+				}
+			}
+			return true
+		})
+		return found
+	}
+	// the variadic vector: reflect.Value locals assigned from an element of a frame's data
+	// indexed by an expression mentioning the position of the variadic parameter
+	vec := map[types.Object]bool{}
+	ast.Inspect(fi.Decl.Body, func(m ast.Node) bool {
+		as, ok := m.(*ast.AssignStmt)
+		if !ok || len(as.Lhs) != 1 || len(as.Rhs) != 1 {
+			return true
+		}
+		ix, ok := unparen(as.Rhs[0]).(*ast.IndexExpr)
+		if !ok || !strings.Contains(types.ExprString(ix.Index), "variadic") {
+			return true
+		}
+		if id, ok := as.Lhs[0].(*ast.Ident); ok && types.TypeString(info.TypeOf(id), nil) == "reflect.Value" {
+			vec[info.ObjectOf(id)] = true
+		}
+		return true
+	})
+	n := 0
+	for _, fl := range (&c02ctx{ic: ic}).closuresOf(fi) {
+		ast.Inspect(fl.Body, func(m ast.Node) bool {
+			c, ok := m.(*ast.CallExpr)
+			if !ok || !isCallTo(info, c, "reflect.Value.Set") || len(c.Args) != 1 {
+				return true
+			}
+			se := unparen(c.Fun).(*ast.SelectorExpr)
+			id, ok := unparen(se.X).(*ast.Ident)
+			if !ok || !vec[info.ObjectOf(id)] {
+				return true
+			}
+			if inner, ok := unparen(c.Args[0]).(*ast.CallExpr); ok && isCallTo(info, inner, "reflect.Append", "reflect.AppendSlice") {
+				return true
+			}
+			n++
+			guarded := false
+			for _, g := range pathGuards(fl.Body, c) {
+				if g.want && mentionsFlag(g.cond) {
+					guarded = true
+				}
+			}
+			r.Check(guarded, rule, fmt.Sprintf("call/variadic-vector-set-whole#%d/only-under-the-ellipsis", n), ic.pos(c.Pos()), "the operand becomes the variadic parameter only for a call written f(s...)",
+				"the generator of calls stores a whole operand into the variadic parameter ("+types.ExprString(c)+") without testing the ellipsis of the call (n.action == aCallSlice): the decision is taken on run-time types, so f(a) with a of type []interface{} and f(...interface{}) receives the elements of a instead of one argument (len 3 instead of 1)")
+			return true
+		})
+	}
+	if n == 0 {
+		r.Errorf("%s: no store of a whole operand into the variadic vector found in the generator of calls", rule)
+	}
 }
